@@ -91,6 +91,8 @@ type Output struct {
 }
 
 type SamplePath struct {
+	Hashes []HashTarget           `json:"hashes"`
+	Seed   uint64                 `json:"seed"`
 	Case   int                    `json:"case"`
 	Trace  []Choice               `json:"trace"`
 	Inputs map[string]interface{} `json:"inputs"`
@@ -299,6 +301,7 @@ func main() {
 				sp := SamplePath{Case: cn, Trace: s.trace, Obs: s.obs, PCLen: len(s.pc)}
 				if m := s.currentModel(); m != nil {
 					sp.Inputs = s.inputsUnder(m)
+					sp.Hashes, sp.Seed = hashTargets(m)
 				}
 				for c := range s.covers {
 					sp.Covers = append(sp.Covers, c)
